@@ -24,7 +24,7 @@ ASSUMPTIONS = ["clang builds use -fstandalone-debug so that every reachable type
 @st.composite
 def strategy_(draw, tier):
     big = tier == "thorough"
-    m = draw(S.library(lang="any", max_types=10 if big else 7, max_funcs=6, symfeatures=False))
+    m = draw(S.library(lang="any", max_types=10 if big else 7, max_funcs=6, symfeatures=False, tu_private=30))
     cfg = draw(S.build_config())
     m2, info = MU.breaking(draw, m)
     return {"model": m, "cfg": cfg, "mutant": m2, "info": info}
